@@ -406,7 +406,7 @@ def workload(ctx):
 def case_cif(ctx, p):
     mon = ctx.mon
     rng = np.random.default_rng(p["s"])
-    o = ctx.sgmod.sg(sgno=p["no"], cell_choice=p["setting"])
+    o = c04.Table(p["no"], p["setting"])
     text, rec = make_cif(rng, o.name, p["no"], p["setting"])
     path = os.path.join(ctx.dir, "case_%d.cif" % p["s"])
     with open(path, "w") as fh:
